@@ -264,3 +264,19 @@ func Log(kind string, args ...any) {
 		x.tracef("    log %s: %s %v\n", t.ID, kind, args)
 	}
 }
+
+// Watch registers a named predicate evaluated on the terminal state (used by
+// harnesses to let oracles see whether a returned channel has been closed).
+func Watch(name string, f func() bool) {
+	if X != nil && !X.teardown {
+		X.Watches = append(X.Watches, Watcher{name, f})
+	}
+}
+
+type Watcher struct {
+	Name string
+	F    func() bool
+}
+
+// ClosedFlag is implemented by *Chan[T].
+type ClosedFlag interface{ IsClosed() bool }
